@@ -162,6 +162,7 @@ def judgeOp (c : Case) (k : Nat) (op : Op) (prev : Obs) (o : Obs) : List String 
         ++ chk "C07" k (decide (C07 pre (okWrites accs)))
         ++ (if ff && o.outcome.isOk then
               chk "C01" k (decide (C01 q pre post)) ++ chk "C02" k (decide (C02 q pre post))
+              ++ chk "C02b" k (decide (C02Block q pre post))
               ++ chk "C08" k (decide (C08 q pre accs))
             else [])
         ++ (if ff then chk "C02" k (o.outcome != .panic) else [])
@@ -190,6 +191,9 @@ def judgeOp (c : Case) (k : Nat) (op : Op) (prev : Obs) (o : Obs) : List String 
     tr ++ coherentOk ++ specific ++ inv6
       ++ chk "reads" k (readsOk (some shPre) op accs ff)
       ++ chk "accesses" k (accessesOk shPre op accs ff)
+      ++ (match op with
+          | .config _ | .selfTest => if ff then chk "recorded" k (decide (Recorded shPre shPost (okWrites accs))) else []
+          | _ => [])
   | none, _, _, _, _ => tr ++ [s!"decode@{k}"]
   | some accs, _, _, _, _ =>
     -- quiet case (no register dumps): what needs only the case and the result
